@@ -328,8 +328,42 @@ impl Stats {
 // ------------------------------------------------------------------------------------------
 // case helpers
 
+thread_local! {
+    /// inputs that were evaluated on this thread right before the current case, on purpose (hidden-state
+    /// phases): recorded in the case so that a replay can re-create the sequence
+    static PREDECESSORS: RefCell<Vec<Vec<u8>>> = const { RefCell::new(Vec::new()) };
+}
+
+/// evaluate `body` with `preds` recorded as the inputs that deliberately preceded the case
+pub fn with_predecessors<T>(preds: &[&[u8]], body: impl FnOnce() -> T) -> T {
+    PREDECESSORS.with(|p| *p.borrow_mut() = preds.iter().map(|b| b.to_vec()).collect());
+    let r = body();
+    PREDECESSORS.with(|p| p.borrow_mut().clear());
+    r
+}
+
 pub fn bytes_case(b: &[u8]) -> Value {
-    json!({"kind": "bytes", "text": String::from_utf8_lossy(b), "hex": hex(b)})
+    let mut c = json!({"kind": "bytes", "text": String::from_utf8_lossy(b), "hex": hex(b)});
+    PREDECESSORS.with(|p| {
+        let p = p.borrow();
+        if !p.is_empty() {
+            c["after"] = Value::Array(p.iter().map(|x| json!({"hex": hex(x), "text": String::from_utf8_lossy(x)})).collect());
+        }
+    });
+    c
+}
+
+/// the inputs a replay has to evaluate first (see `with_predecessors`); they are cases of the same kind
+pub fn case_predecessors(c: &Value) -> Vec<Value> {
+    let kind = c.get("kind").cloned().unwrap_or(json!("bytes"));
+    c.get("after").and_then(|a| a.as_array()).map(|a| a.iter().map(|x| json!({"kind": kind, "hex": x["hex"], "text": x["text"]})).collect()).unwrap_or_default()
+}
+
+/// a bytes-like case of another kind (same fields), with the recorded predecessors
+pub fn bytes_case_kind(kind: &str, b: &[u8]) -> Value {
+    let mut c = bytes_case(b);
+    c["kind"] = json!(kind);
+    c
 }
 pub fn hex(b: &[u8]) -> String {
     b.iter().map(|c| format!("{c:02x}")).collect()
